@@ -341,6 +341,9 @@ _CONFIG_SUITE = {"name": "cli", "relevant": lambda c: c["kind"].startswith("cli-
 # the configuration file through the real command line: used when valid (C10), refused with the documented error when not (C15)
 PROPS["C10"]["suites"].append(_CONFIG_SUITE)
 PROPS["C15"]["suites"].append(_CONFIG_SUITE)
+# every other command line of the cli suite (file names, line ends, file contents at the edge): never an internal exception
+PROPS["C15"]["suites"].append({"name": "cli", "relevant": lambda c: not c["kind"].startswith("cli-config"),
+                               "oracle": _SC.crash_oracle, "classify": _SC.crash_classify})
 
 register_b09(
     "C07", ["CocoVerif.Props.C07", "CocoVerif.Props.C07Expr", "CocoVerif.Props.C07Stmt", "CocoVerif.Props.C07Lib"], OB.c07, OB.c07_classify, 
